@@ -90,7 +90,11 @@ def gen_data(rng, kind, n, p):
         X = Y @ Mix
         if kind == "mixed" or m < p:
             X = X + 0.4 * rng.standard_normal((n, p))
-    return X + rng.standard_normal(p) * 3.0
+    X = X + rng.standard_normal(p) * 3.0
+    # fields in small or large physical units: nothing in the statement depends on them
+    if rng.random() < 0.35:
+        X = X * float(10.0 ** rng.integers(-8, 5))
+    return X
 
 
 def make_cfg(rng, i):
